@@ -2,7 +2,7 @@ SPECIFICATION Spec
 CONSTANTS
   MaxRefs = 2
   Kinds = {"void", "copy", "move"}
-  Bodies = {"none", "destroyCtx", "dropOthers"}
+  Bodies = {"none", "destroyCtx", "dropOthers", "refinish"}
   MaxHist = 6
 CONSTRAINT Bound
 ACTION_CONSTRAINT EmitBehaviour
